@@ -298,8 +298,9 @@ class UpnpProfileDevice:
 
     async def _update_resubscriber_task(self) -> None:
         """Start or stop the resubscriber task, depending on having subscriptions."""
-        # Clear out done task to make later logic easier
-        if self._resubscriber_task and self._resubscriber_task.cancelled():
+        # Clear out done task to make later logic easier. A task that ended by
+        # itself (every renewal failed) must not prevent starting a new one.
+        if self._resubscriber_task and self._resubscriber_task.done():
             self._resubscriber_task = None
 
         if self._subscriptions and not self._resubscriber_task:
